@@ -251,6 +251,12 @@ def gen_hostile(rng, st):
         if combo == 3:
             return c_branch_flags(lst=True, delete=rng.choice(others))
         return c_branch_flags(names=[rng.choice(BRANCHES), rng.choice(BRANCHES)])
+    if k == 17 and rng.random() < 0.6:
+        # config arguments the file format cannot hold, or without exactly one dot
+        key, val = rng.choice([(b".k", b"v"), (b"user.name", b"a\nb"), (b"us\ner.name", b"x"), (b"user.na\nme", b"x"),
+                               (b"a.b.c", b"v"), (b"nodot", b"v"), (b"s.", b"v"), (b".", b"v"), (b"user.name", b"line\n"),
+                               (b"[x].k", b"v"), (b"x.k=1", b"v")])
+        return c_config(key, val, glob=rng.random() < 0.3)
     if k == 16:
         # mode flags of other commands combined, missing or repeated arguments
         combo = rng.randrange(8)
